@@ -330,7 +330,7 @@ def check_roundtrip(case, col: Collector) -> bool:
     # sum-product equal (non-recursive grammars)
     if not recursive(rec):
         try:
-            z1 = fggs.sum_product(fgg, method="linear").to_dense() if False else fggs.sum_product(fgg)
+            z1 = fggs.sum_product(fgg)
             z2 = fggs.sum_product(fgg2)
             z1 = z1.to_dense() if hasattr(z1, "to_dense") else z1
             z2 = z2.to_dense() if hasattr(z2, "to_dense") else z2
